@@ -42,7 +42,7 @@ for _o in "*/%":
 
 def leaf(v):
     if isinstance(v, list):
-        return ("list", [L(x) for x in v])
+        return ("list", [leaf(x) for x in v])
     return L(v)
 
 
@@ -149,6 +149,34 @@ def explore_pairs(chunk):
         agg.sample({"flat": flat_text([leaf(3), o1, leaf(-2), o2, leaf(1.5)]),
                     "grouping": E.render(ref_parse(
                         [leaf(3), o1, leaf(-2), o2, leaf(1.5)]), True)}, 3)
+    return agg
+
+
+# ---- part 1b: one operator, every operand pair of a wide pool ---------------
+WIDE = [0, 1, 2, 10, -2, -1, 1.5, 2.0, -0.5, True, False, None, "", "a",
+        "ab", "b", "10", "2", [], [1], [2], [10], [-2], [-1], [1, 0], [1, 2],
+        [1.0], [[1]], ["a"], [None]]
+
+
+def explore_wide(chunk):
+    """a op b for one operator and every ordered pair of the wide pool
+    (NULL next to collections, lists of different lengths and digit counts,
+    strings that look like numbers ...), plus the chain a op b op c on the
+    diagonal pairs"""
+    agg = core.Agg()
+    for op in chunk["ops"]:
+        for a, b in itertools.product(WIDE, repeat=2):
+            x, y = leaf(a), leaf(b)
+            if op in ("in", "notin"):
+                ast = (op, x, y)
+            elif op in PREC and PREC[op] == 4:
+                ast = ("cmp", [x, op, y])
+            elif op in ("and", "or"):
+                ast = (op, [x, y])
+            else:
+                ast = ("bin", op, x, y)
+            judge(agg, "wide", ast, sig={"op": op})
+        agg.count("cases")
     return agg
 
 
@@ -524,6 +552,8 @@ def main(tier, seed):
                                     for c in core.chunked(pairs,
                                                           core.NPROC * 4)])
     agg.merge(core.pmap(explore_unary, [{"ops": [o]} for o in BINOPS]))
+    agg.merge(core.pmap(explore_wide, [{"ops": [o]}
+                                       for o in BINOPS + ["in", "notin"]]))
     maxops = 3 if tier == "quick" else 4
     shapes = []
     for n in range(1, maxops + 1):
